@@ -21,7 +21,7 @@ ASSUMPTIONS = ["atime is excluded (the kernel updates it on read)",
                "directories that legitimately receive new children may change mtime/size/nlink",
                "kills are placed at system-call boundaries: between two calls xcp changes nothing on disk"]
 
-FIELDS = ("k", "size", "sha", "mode", "uid", "gid", "mtime_ns", "rdev", "link", "xattrs")
+FIELDS = ("k", "size", "sha", "mode", "uid", "gid", "mtime_ns", "rdev", "link", "xattrs", "ino")
 
 
 def F(p, size=300000, seed=11, **kw):
@@ -55,6 +55,18 @@ def alias_cases():
     add("toplevel-abs-symlink-to-dir", base + [L("ld", "@ROOT@/d"), D("dst")], ["ld", "dst"], ["d/f", "d/g"], True)
     add("toplevel-rel-symlink-to-dir", base + [D("links"), L("links/ld", "../d"), D("dst")], ["links/ld", "dst"], ["d/f", "d/g"], True)
     add("toplevel-rel-symlink-to-dir-T", base + [L("ld", "d")], ["-T", "ld", "newname"], ["d/f", "d/g"], True)
+    # the same relations for entries that are not regular files
+    for kind in ("fifo", "sock", "chr"):
+        N = {"p": "p", "k": kind, "mode": 0o640}
+        if kind == "chr":
+            N["rdev"] = [1, 3]
+        add("special-%s-dot-slash" % kind, base + [N], ["p", "./p"], ["p"])
+        add("special-%s-dir-dotdot" % kind, base + [N], ["p", "d/../p"], ["p"])
+        add("special-%s-via-symlinked-dir" % kind, base + [N, L("here", ".")], ["p", "here/p"], ["p"])
+        add("special-%s-hardlink" % kind, base + [N, H("hp", "p")], ["p", "hp"], ["p"])
+        add("special-%s-in-T-respelled-dir" % kind, [D("d"), F("d/f"), dict(N, p="d/p"), D("other"), F("other/keep", 99, 13)], ["-T", "d", "./d"], ["d/f", "d/p"], True)
+    add("link-dot-slash", base + [F("f"), L("l", "f")], ["l", "./l"], ["l", "f"])
+    add("link-in-T-respelled-dir", [D("d"), F("d/f"), L("d/l", "f"), D("other"), F("other/keep", 99, 13)], ["-T", "d", "./d"], ["d/f", "d/l"], True)
     add("two-sources-one-alias", base + [F("f"), D("dst"), L("dst/f", "../f")], ["other/keep", "f", "dst"], ["f", "other/keep"])
     return out
 
@@ -65,10 +77,22 @@ def gen_cases(tier, seed):
     scheds = [("os", None), ("role", "worker,dispatcher,walker,copy,main"), ("role", "walker,dispatcher,worker,copy,main"),
               ("pct", None)]
     reps = 1 if tier == "quick" else 6
-    for a in alias_cases():
+    variants = [[], ["--backup", "numbered"], ["--backup", "auto"], ["--no-perms", "--no-timestamps", "--backup", "numbered"], ["--fsync", "--ownership"], ["-n"]]
+    for ai, a0 in enumerate(alias_cases()):
+      for vi, extra in enumerate(variants):
+        if vi and tier == "quick" and (ai + vi) % 2 and extra[0] != "--backup":
+            continue
+        a = copy.deepcopy(a0)
+        a["args"] = extra + a["args"]
+        a["variant"] = " ".join(extra) or "plain"
+        if extra[:2] == ["--backup", "auto"]:
+            # auto only acts when a backup exists already: seed one next to every protected file
+            a["spec"] = a["spec"] + [F(p_ + ".~1~", 5, 77) for p_ in a["protected"] if any(e["p"] == p_ and e["k"] == "f" for e in a["spec"])]
         for driver in ("parfile", "parblock"):
             for bs in ("64KB", "np"):
-                for sched, order in scheds:
+                if vi and bs == "np":
+                    continue
+                for sched, order in (scheds if not vi else scheds[:1]):
                     if not a["alias"].startswith("toplevel") and sched == "role" and tier == "quick":
                         continue
                     nrep = reps * (4 if a["alias"].startswith("toplevel") else 1)
@@ -77,6 +101,17 @@ def gen_cases(tier, seed):
                         c.update({"family": "alias", "driver": driver, "bs": bs, "sched": sched, "order": order,
                                   "sseed": r.randrange(1 << 30), "fs": "ext4"})
                         yield c
+    # family 1b: the same top-level-link aliases with the one interleaving that defeats a path-based identity check forced by
+    # supervisor gates: a worker's stat of dst/<link>/f returns (ENOENT) -> only then may another worker create the link ->
+    # only then may the first worker open dst/<link>/f
+    for a in alias_cases():
+        if not a["alias"].startswith("toplevel"):
+            continue
+        for bs in ("64KB", "np"):
+            for rep in range(2 if tier == "quick" else 10):
+                c = copy.deepcopy(a)
+                c.update({"family": "alias", "driver": "parfile", "bs": bs, "sched": "gate", "order": None, "sseed": r.randrange(1 << 30), "fs": "ext4"})
+                yield c
     # families 2 and 3: baseline cases whose sites are enumerated at run time
     nbase = 4 if tier == "quick" else 40
     for i in range(nbase):
@@ -131,20 +166,39 @@ def run_alias(case, res):
             plan = {"sched": case["sched"], "sched_seed": case["sseed"], "log_mode": "none", "pct_horizon": 200}
             if case["order"]:
                 plan["role_order"] = case["order"]
+            if case["sched"] == "gate":
+                # destination of the link and of the first file copied through it
+                dest = [x for x in args if not x.startswith("-")][-1]
+                link = os.path.basename(case["args"][-2])
+                lp = root + "/" + (dest if "-T" in case["args"] else dest + "/" + link)
+                fp = lp + "/f"
+                plan = {"sched": "jitter", "jitter": [100, 300], "sched_seed": case["sseed"], "log_mode": "none", "rules": [
+                    {"id": "n1", "sys": "statx", "path": fp, "action": "note", "when": "exit"},
+                    {"id": "g1", "sys": "symlink", "path": lp, "action": "hold", "until": "n1", "maxwait_ms": 400},
+                    {"id": "n2", "sys": "symlink", "path": lp, "action": "note", "when": "exit"},
+                    {"id": "g2", "sys": "openat", "path": fp, "action": "hold", "until": "n2", "maxwait_ms": 400}]}
             run = core.run_xcp(sb, args, plan)
         if run.verdict != "exited":
             res["inconc"].append("run-" + run.verdict)
             return
         post = tree.snapshot(root)
         # protected: the named source files plus everything that is not a destination of this invocation
-        protected = set(case["protected"]) | {p for p in pre if p.startswith("other") or p.startswith("d/") or p == "f"}
+        protected = set(case["protected"]) | {p for p in pre if p.startswith("other") or p.startswith("d/") or p in ("f", "p", "l")}
         for frag, msg in protected_diff(pre, post, protected, []):
-            res["viol"].append({"sig": "alias:%s:%s" % (case["alias"], frag),
+            res["viol"].append({"sig": "alias:%s:%s:%s" % (case["alias"], case.get("variant", "plain"), frag),
                                 "what": "%s; exit=%s driver=%s args=%s" % (msg, run.status, case["driver"], " ".join(case["args"]))})
-        res["evals"].append({"key": ["alias", case["alias"], case["driver"], case["bs"]],
+        # nothing may appear next to a source either (e.g. the source itself renamed to a backup name)
+        for p in sorted(post):
+            if p not in pre and (os.path.dirname(p) in ("", "d") and not p.startswith("dst") and p not in ("newname",)) and not p.startswith("newname"):
+                res["viol"].append({"sig": "alias:%s:%s:created-next-to-source" % (case["alias"], case.get("variant", "plain")),
+                                    "what": "%r appeared next to the sources; exit=%s driver=%s args=%s" % (p, run.status, case["driver"], " ".join(case["args"]))})
+        res["evals"].append({"key": ["alias", case["alias"], case["driver"], case["bs"], case.get("variant", "plain")],
                              "sample": {"alias": case["alias"], "args": case["args"], "driver": case["driver"], "exit": run.status,
                                         "sched": case["sched"]}})
         res["counters"]["alias-runs"] = 1
+        if case["sched"] == "gate":
+            res["counters"]["gated-runs"] = 1
+            res["counters"]["gated-runs-interleaving-achieved"] = int(run.rule("g1")["applied"] > 0 and run.rule("g2")["applied"] > 0 and run.summary.get("gate_timeouts", 1) == 0)
         res["counters"]["alias-exit0" if run.exit0 else "alias-refused"] = 1
 
 
